@@ -257,6 +257,7 @@ func (hs *serverHandshakeStateTLS13) processClientHello() error {
 		}
 		ecdhData = ecdhData[mlkem.EncapsulationKeySize768:]
 	}
+	ecdhGroup, ecdhData = c.verifSplitShare(selectedGroup, ecdhGroup, ecdhData)
 	if _, ok := curveForCurveID(ecdhGroup); !ok {
 		c.sendAlert(alertInternalError)
 		return errors.New("tls: CurvePreferences includes unsupported curve")
@@ -295,6 +296,9 @@ func (hs *serverHandshakeStateTLS13) processClientHello() error {
 		// encapsulation to the client's encapsulation key, and the server's
 		// ephemeral X25519 share."
 		hs.hello.serverShare.data = append(ciphertext, hs.hello.serverShare.data...)
+	}
+	if err := c.verifHybridEncap(hs, selectedGroup, clientKeyShare); err != nil {
+		return err
 	}
 
 	selectedProto, err := negotiateALPN(c.config.NextProtos, hs.clientHello.alpnProtocols, c.quic != nil)
